@@ -17,7 +17,7 @@ RULE = ("one case = (penalty hyper-parameters incl. zero weights / positivity / 
         "=> score 0 and prox_impl(w - s g, s) == w, (e) value == refmath value, invariant on unpenalised "
         "coordinates, generalized_support contains the non-zeros, (f) dist_fix_point_cd/bcd == |w - prox(w - g/L)|. "
         "Non-trivial: some coordinate sits exactly on a kink, or the case is of type (c)/(d).")
-ASSUMPTIONS = ["IndicatorBox is judged only on [0, C] (its score outside the box is not a positivity option)",
+ASSUMPTIONS = ["outside [0, C] the IndicatorBox score must be inf as for positivity (empty subdifferential; a finite score there lets a warm start from a larger C be returned as converged)",
                "regular (Frechet) subdifferential: whole line at 0 for L0_5 / L2_3 / L2_05"]
 
 BLOCKS = ["WeightedGroupL2", "WeightedGroupL2+", "L2_1", "L2_05", "BlockMCPenalty", "BlockSCAD"]
@@ -210,11 +210,9 @@ def check_scalar(case):
         want = rp.sdist(w[j], grad_full[j], j)
         wj = float(w[j])
         if math.isinf(want):
-            if name == "IndicatorBox":
-                continue
             if not math.isinf(got[idx]):
                 viol.append(Viol(dict(sig0, kind="finite-score-at-infeasible-point"),
-                                 f"{name}.subdiff_distance at w_j={wj!r} (violates positivity) = {got[idx]!r}, expected inf; params {spec}"))
+                                 f"{name}.subdiff_distance at w_j={wj!r} (outside the constraint set: empty subdifferential) = {got[idx]!r}, expected inf; params {spec}"))
             continue
         tol_rel = 1e-9
         if mode == "c":
